@@ -22,10 +22,12 @@ FRAME_LABEL = "frame: no module-level state of exo is written"
 # memo tables of new_eff keyed by the callee's proc object (an immutable LoopIR node, hashed by identity);
 # an entry is computed from the key alone: globenv(proc.body), the proc's effects, its simplified copy
 DEFAULT_MODIFIES = {"exo.rewrite.new_eff:_globenv_proc_cache", "exo.rewrite.new_eff:_proc_effs_cache",
-                    "exo.rewrite.new_eff:_simple_proc_cache"}
-FRAME_ASSUMPTION = ("frame: the three memo tables of new_eff keyed by a callee's proc object (_globenv_proc_cache, "
-                    "_proc_effs_cache, _simple_proc_cache) may be written; every other module-level container of "
-                    "exo.* must be left as found by each function under contract")
+                    "exo.rewrite.new_eff:_simple_proc_cache", "exo.rewrite.new_eff:_proc_changeset_cache",
+                    "exo.rewrite.new_eff:_overapprox_proc_cache"}
+FRAME_ASSUMPTION = ("frame: the five memo tables of new_eff keyed by a callee's proc object (_globenv_proc_cache, "
+                    "_proc_effs_cache, _simple_proc_cache, _proc_changeset_cache, _overapprox_proc_cache; each entry "
+                    "is computed from the immutable key alone) may be written; every other module-level container "
+                    "of exo.* must be left as found by each function under contract")
 
 
 def module_state():
